@@ -42,6 +42,7 @@ def cases(tier, seed):
 
 KNOWN = {
     "lt-same-scale@ptf8": "C05/lt-float8-raises",
+    "t-1d": "C05/t-on-1d-raises",
     "stack-diff-scale": "C05/stack-fallback-raises",
     "stack-three": "C05/stack-fallback-raises",
     "copy_-into-plain": "C05/copy-into-plain-raises",
@@ -326,7 +327,8 @@ def replay(rec):
             try:
                 cur = cat[step].fn(cur, None)
             except Exception as e:  # noqa
-                return True, f"program {inp['program']}: step {step} raised {type(e).__name__}: {e}", None
+                key = ["C05/t-on-1d-raises"] if step == "t" and getattr(cur, "ndim", 2) == 1 else None
+                return True, f"program {inp['program']}: step {step} raised {type(e).__name__}: {e}", key
             ref = nref
             mp = qops.metadata_problems(cur)
             if mp:
